@@ -834,6 +834,21 @@ func (e *Env) evalCall(n *ast.CallExpr) (SVal, error) {
 				return SVal{}, err
 			}
 			return SVal{Select(vc.cur(e.st, e.visKey), k.T, SBool), boolT}, nil
+		case "param":
+			// the value a parameter had when the function was called (a local of the same name may shadow it)
+			if err := need(1); err != nil {
+				return SVal{}, err
+			}
+			pn, ok := identName(n.Args[0])
+			if !ok || vc.fn == nil {
+				return SVal{}, fmt.Errorf("spec expr: param(name)")
+			}
+			for _, p := range vc.fn.Params {
+				if p.Name() == pn {
+					return SVal{vc.val(p), p.Type()}, nil
+				}
+			}
+			return SVal{}, fmt.Errorf("spec expr: no parameter %s", pn)
 		case "loopentry":
 			// value of an expression when the enclosing loop was entered
 			if e.loopEntry == nil {
